@@ -450,6 +450,8 @@ def seq_drain(ex, st, callee, args):
     l = as_list(ex, args[0]); rng = args[1]
     n = len(l.items)
     lo, hi = (rng[0], rng[1]) if isinstance(rng, list) and len(rng) == 2 else (None, None)
+    if lo is None and isinstance(rng, list) and len(rng) == 1 and 'RangeTo<' in callee: lo, hi = BitVecVal(0, 64), rng[0]
+    if lo is None and isinstance(rng, list) and len(rng) == 1 and 'RangeFrom<' in callee: lo, hi = rng[0], BitVecVal(n, 64)
     if lo is None: raise Unsupported('drain range %r' % (rng,))
     okc = And(ULE(lo, hi), ULE(hi, n))
     st.path.oblige('no panic: drain range within the sequence', okc, callee); st.path.assume(okc)
@@ -575,6 +577,39 @@ def it_min_by(ex, st, callee, args):
     if not isinstance(it, Iter): return NotImplemented
     mode = re.search(r'as Iterator>::(min_by_key|max_by_key|min_by|max_by)::', callee).group(1)
     return run_pipe(ex, st, box(it), mode, args[1])
+
+
+class Retain:
+    """continuation for Vec::retain: the predicate closure runs on each element in order (from MIR), symbolic verdicts fork; kept elements stay in order"""
+    def __init__(self, lptr, clo):
+        self.lptr, self.clo, self.i, self.keep = lptr, clo, 0, []
+
+    def next(self, ex, st):
+        l = as_list(ex, self.lptr)
+        if self.i >= len(l.items):
+            l.items[:] = [l.items[k] for k in self.keep]
+            return []
+        r = call_closure(ex, self.clo, [Ptr(l.items, self.i)], cont=self, st=st)
+        if isinstance(r, Inline): return r
+        if isinstance(r, (Fork, Diverge)): raise Unsupported('forking model used as a retain predicate')
+        return self.step(ex, st, r)
+
+    def step(self, ex, st, rv):
+        c = simp(rv) if z3.is_expr(rv) else rv
+        i = self.i
+        def yes(p, ex, st):
+            p.keep.append(i); p.i += 1; return p.next(ex, st)
+        def no(p, ex, st):
+            p.i += 1; return p.next(ex, st)
+        if z3.is_true(c): return yes(self, ex, st)
+        if z3.is_false(c): return no(self, ex, st)
+        return Fork([(c, lambda ex, st, a: yes(a[0], ex, st)), (Not(c), lambda ex, st, a: no(a[0], ex, st))], args=[self])
+
+
+@h(r'^%s::<.*>::retain::<.*>$' % _SEQ)
+def seq_retain(ex, st, callee, args):
+    as_list(ex, args[0])
+    return Retain(args[0], args[1]).next(ex, st)
 
 
 @h(r'^%s::<.*>::swap_remove$' % _SEQ)
